@@ -71,7 +71,11 @@ def model_save(present, step, keep, keep_every, overwrite, backend):
 def tree_for(step):
   import numpy as np
   v = float(step)
-  return {'w': np.full((3,), v, np.float32), 'nested': {'step': np.asarray(v, np.float64), 'ids': np.arange(4, dtype=np.int32) + int(v)}}
+  return {'w': np.full((3,), v, np.float32), 'nested': {'step': np.asarray(v, np.float64), 'ids': np.arange(4, dtype=np.int32) + _tag(v)}}
+
+
+def _tag(v):
+  return int(abs(v) * 8) % 1000 if abs(v) < 1e9 else 777
 
 
 def tree_step(tree):
@@ -79,7 +83,7 @@ def tree_step(tree):
   import numpy as np
   v = float(np.asarray(tree['nested']['step']))
   ok = (np.array_equal(np.asarray(tree['w']), np.full((3,), v, np.float32)) and
-        np.array_equal(np.asarray(tree['nested']['ids']), np.arange(4, dtype=np.int32) + int(v)) and set(tree) == {'w', 'nested'})
+        np.array_equal(np.asarray(tree['nested']['ids']), np.arange(4, dtype=np.int32) + _tag(v)) and set(tree) == {'w', 'nested'})
   if not ok:
     raise ValueError('corrupt tree: %r' % (tree,))
   return v
@@ -214,7 +218,7 @@ def gen_histories(ctx):
       [1, 2, 3, 4], [9, 10, 11, 100], [1.5, 2.5, 10.25, 11.0], [-3, -2, -1, 5], [1, 2.5, 3, 10], [1e-05, 0.5, 1000.0, 1e22],
       [5, 6, 7, 8, 9], [-10.5, -2, 3, 40],
   ]
-  prefixes = ['checkpoint_', 'ck2pt_', 'model.', 'run1_step_']
+  prefixes = ['checkpoint_', 'ck2pt_', 'model_v2-final_', 'run1_step_']
   hs = []
   n = 16 if ctx.tier == 'quick' else 96
   combos = [(b, m) for b in ('legacy', 'orbax') for m in ('TF', 'DEFAULT')]
@@ -352,6 +356,14 @@ def crash_one_save(ctx, hi, hist, j, base):
         rename_at = next((i for i, e in enumerate(cnt['log'], start=1) if e[0] == 'os.rename' and e[1] == fmt(hist['prefix'], step)), None)
         mech_sfx = ':orbax_force_overwrite_window' if (hist['backend'] == 'orbax' and overwrite and step in present_before
                                                        and rename_at is not None and k <= rename_at) else ''
+        if not mech_sfx:
+          # flax removes checkpoint directories with a recursive delete: a crash at the final rmdir (or a nested remove) of a
+          # committed checkpoint directory leaves an emptied directory under a checkpoint name (known finding, this window only)
+          cur_op = cnt['log'][k - 1]
+          top = cur_op[1].split(os.sep)[0]
+          if cur_op[0] in ('os.rmdir', 'os.remove') and top.startswith(hist['prefix']) and not any(m in top for m in TMP_MARKERS) \
+              and top != hist['prefix'] + 'tmp':
+            mech_sfx = ':nonatomic_dir_removal'
         ctx.check('latest_error' not in o and o.get('latest') in allowed, 'crash.latest' + mech_sfx, det)
         if 'restore_error' in o:
           ctx.check(False, 'crash.restore_raises' + mech_sfx, det)
@@ -485,7 +497,7 @@ def run(ctx):
     ahists += [
         dict(backend='legacy', io=io, prefix='checkpoint_', variant='same_no_overwrite', ops=[(1, 2, None, False), (2, 2, None, False), (2, 2, None, False), (3, 2, None, False)]),
         dict(backend='legacy', io=io, prefix='ck2pt_', variant='older_no_overwrite', ops=[(5, 1, None, False), (6, 1, None, False), (5.5, 1, None, False), (7, 1, None, False)]),
-        dict(backend='legacy', io=io, prefix='model.', variant='overwrite_older', ops=[(1, 3, None, False), (2, 3, None, False), (3, 3, None, False), (2, 3, None, True), (4, 3, 2, False)]),
+        dict(backend='legacy', io=io, prefix='model_v2-final_', variant='overwrite_older', ops=[(1, 3, None, False), (2, 3, None, False), (3, 3, None, False), (2, 3, None, True), (4, 3, 2, False)]),
     ]
   ahists += [h for h in hists if h['backend'] == 'legacy'][: (2 if ctx.tier == 'quick' else 30)]
   for hi, hist in ctx.items(ahists, 'async'):
